@@ -98,8 +98,15 @@ fn gen_alias(rng: &mut Rng, n: &mut Names) -> Option<Decl> {
     }
     let k = n.fresh();
     let name = format!("Al{k}");
-    let ei = rng.below(n.enums.len());
-    let target = respell(rng, &n.enums[ei].0);
+    // an alias of an enumeration or of another alias (chains of late-bound declarations)
+    let (ei, target) = if !n.aliases.is_empty() && rng.chance(1, 2) {
+        let (a, ei) = rng.pick(&n.aliases).clone();
+        (ei, a)
+    } else {
+        let ei = rng.below(n.enums.len());
+        (ei, n.enums[ei].0.clone())
+    };
+    let target = respell(rng, &target);
     let text = format!("TYPE\n  {name} : {target};\nEND_TYPE\n");
     n.aliases.push((name.clone(), ei));
     Some(decl("alias", &name, text))
@@ -296,8 +303,7 @@ fn gen_one(rng: &mut Rng, n: &mut Names) -> Decl {
     loop {
         let d = match rng.below(12) {
             0 | 1 => Some(gen_enum(rng, n)),
-            2 => gen_alias(rng, n),
-            3 => Some(gen_subrange(rng, n)),
+            2 | 3 => gen_alias(rng, n).or_else(|| Some(gen_subrange(rng, n))),
             4 => Some(gen_struct(rng, n)),
             5 => Some(gen_array(rng, n)),
             6 | 7 | 8 => Some(gen_fb(rng, n)),
@@ -344,11 +350,12 @@ pub const FAULT_KINDS: &[&str] = &[
     "dup_identical",
     "dup_one_faulty",
     "alias_unknown",
+    "global_not_external",
 ];
 
 /// Fault kinds whose faulty declaration(s) fail on their own (no other declaration needed).
 pub fn is_standalone(kind: &str) -> bool {
-    !matches!(kind, "enum_value_undefined" | "external_not_const" | "const_fb")
+    !matches!(kind, "enum_value_undefined" | "external_not_const" | "const_fb" | "global_not_external")
 }
 
 pub fn is_name_clash(kind: &str) -> bool {
@@ -503,6 +510,20 @@ pub fn gen_faulty(rng: &mut Rng, size: usize, kind: &str) -> World {
             // keeps only one of them, the verdict follows whichever survives
             push(&mut decls, decl("fault", &format!("Dup{k}"), format!("FUNCTION_BLOCK Dup{k}\n  VAR\n    cnt : INT;\n  END_VAR\n  cnt := nowhere{k} + 1;\nEND_FUNCTION_BLOCK\n")));
             push(&mut decls, decl("fault", &format!("Dup{k}"), format!("FUNCTION_BLOCK Dup{k}\n  VAR\n    cnt : INT;\n  END_VAR\n  cnt := 1;\nEND_FUNCTION_BLOCK\n")));
+        }
+        "global_not_external" => {
+            // a POU uses a configuration global without declaring it VAR_EXTERNAL: undeclared in
+            // the POU's scope wherever the configuration stands
+            let constant = rng.chance(1, 2);
+            let d = gen_config(rng, &mut n, false, constant);
+            let g = n.globals.last().unwrap().clone();
+            decls.push(d);
+            let pou = if rng.chance(1, 2) {
+                format!("FUNCTION_BLOCK Fb{k}\n  VAR\n    cnt : INT;\n  END_VAR\n  cnt := {g};\nEND_FUNCTION_BLOCK\n")
+            } else {
+                format!("PROGRAM Pr{k}\n  VAR\n    cnt : INT;\n  END_VAR\n  cnt := {g} + 1;\nEND_PROGRAM\n")
+            };
+            push(&mut decls, decl("fault", &format!("Pou{k}"), pou));
         }
         "alias_unknown" => push(&mut decls, decl("fault", &format!("Al{k}"), format!("TYPE\n  Al{k} : NoSuchType{k};\nEND_TYPE\n"))),
         other => panic!("unknown fault kind {other}"),
